@@ -218,6 +218,9 @@ func (e *Engine) shortFuncName(fn *ssa.Function) string {
 // package known to the program by its name).
 func (e *Engine) parseType(text string, pkg *types.Package) types.Type {
 	text = strings.TrimSpace(text)
+	if text == "ref" {
+		return types.Typ[types.UnsafePointer] // ghost: any reference value
+	}
 	key := text
 	if pkg != nil {
 		key = pkg.Path() + "|" + text
